@@ -497,7 +497,7 @@ U_UCMP = KaniUnit(
 U_GUARD = KaniUnit(
     "U-GUARD", "numeric guards of range / round / abs / floor / ceil / trunc / to_bool through the real BuiltInFunction::call: "
     "no panic (overflow, cast, index) for EVERY f64 argument; range rejects unordered, non-finite and over-long spans",
-    modules=[("functions.rs", "verif_builtins.rs")], harnesses=["u_guard_range", "u_guard_round", "u_guard_unary_math", "u_guard_median_varargs"],
+    modules=[("functions.rs", "verif_builtins.rs")], harnesses=["u_guard_range", "u_guard_round", "u_guard_unary_math"],
     functions=[("functions.rs", "call", "BuiltInFunction")],
     prepare=prep_values, timeout=1500, extra=("--no-unwinding-checks",),
     assumptions=BUILTIN_STUBS + ["--no-unwinding-checks: loops after a guard (range's list construction) are cut at 2 "
@@ -629,11 +629,12 @@ def prep_print_calls(sc):
 
 
 U_PRINT_CALLS = KaniUnit(
-    "U-PRINT-CALLS", "every printing site (BinaryOp / UnaryOp / PostfixOp / Call / Access / DotAccess arms of expr_to_source and "
-    "expr_to_source_with_scope, format_binary_op_multiline on all its layout paths, the formatter's two call layouts) "
-    "queries the decision functions with the operand it prints and the side that operand is on",
+    "U-PRINT-CALLS", "the BinaryOp arms of expr_to_source and expr_to_source_with_scope, format_binary_op_multiline on all its "
+    "layout paths and the formatter's two call layouts query the decision functions with the operand they print and the "
+    "side that operand is on (the harnesses for the UnaryOp / PostfixOp / Access / DotAccess arms exist but did not finish "
+    "in 15 minutes and are not registered)",
     modules=[("formatter.rs", "verif_print_calls.rs")],
-    harnesses=["u_print_calls_binary_arms", "u_print_calls_multiline", "u_print_calls_operand_arms", "u_print_calls_call_layouts"],
+    harnesses=["u_print_calls_binary_arms", "u_print_calls_multiline", "u_print_calls_call_layouts"],
     functions=[("ast_to_source.rs", "expr_to_source", None), ("ast_to_source.rs", "expr_to_source_with_scope", None),
                ("formatter.rs", "format_binary_op_multiline", None), ("formatter.rs", "format_call_multiline", None),
                ("formatter.rs", "format_single_line", None)],
@@ -829,12 +830,13 @@ prop("C03", [U_ENV, U_ENV_AUDIT], "other",
       "induction over statement sequences", "REPL/CLI drivers", "that not/do/return/output cannot be identifiers (grammar)"],
      [VECMAP_ASSUMPTION])
 
-prop("C02", [U_HEAP, U_FRAME_AUDIT, U_RANDOM], "other",
-     "Frame conditions only: the heap is append-only (Verus, all heaps), the only two mutation sites set a lambda's name "
-     "(audit), random(seed) is a function of its seed (Kani). Run-to-run determinism and let-abstraction equivalence of "
-     "whole programs are NOT decided.",
+prop("C02", [U_HEAP, U_FRAME_AUDIT], "other",
+     "Frame conditions only: the heap is append-only (Verus, all heaps, unbounded) and the only two mutation sites set a "
+     "lambda's name (audit). The contract for random(seed) (U-RANDOM: same seed => same bits) was written but the two copies "
+     "of fastrand's 64x64->128 multiplication are a multiplier-equivalence query that did not finish in 25 min (CaDiCaL) "
+     "and crashes CBMC's SMT back end - not registered. Run-to-run determinism and let-abstraction equivalence are NOT decided.",
      ["determinism w.r.t. HashMap iteration order / process state", "let-abstraction equivalence (whole-evaluator property)",
-      "purity of every built-in arm (only random is under contract; the others are covered only by the heap frame)"],
+      "purity of the built-in arms beyond the heap frame (random(seed) contract written, intractable)"],
      BUILTIN_STUBS)
 
 prop("C13", [U_BINOP_SCALAR, U_HOF], "other",
